@@ -298,7 +298,7 @@ func (r *renderer) flowCall(decl *strings.Builder) string {
 		fmt.Fprintf(decl, "\tvar %s %s = %s\n", resName(p, j), GoType(f.Types[ti], ti), MkExpr(f.Types[ti], ti, fmt.Sprintf("probe.Sentinel(%d)", j)))
 	}
 	ctx := r.tr("in.Ctx")
-	var opts []string
+	var opts, lateOpts []string
 	for _, tok := range order {
 		switch {
 		case tok == "P":
@@ -312,7 +312,13 @@ func (r *renderer) flowCall(decl *strings.Builder) string {
 				}
 				vs = append(vs, r.tr(r.ident(MkExpr(f.Types[ti], ti, h))))
 			}
-			opts = append(opts, c+".Params("+strings.Join(vs, ", ")+")")
+			if p.F.SplitOpts == "params" || p.F.SplitOpts == "both" {
+				for _, v := range vs {
+					opts = append(opts, c+".Params("+v+")")
+				}
+			} else {
+				opts = append(opts, c+".Params("+strings.Join(vs, ", ")+")")
+			}
 		case tok == "R":
 			var vs []string
 			for j := range f.Results {
@@ -322,7 +328,19 @@ func (r *renderer) flowCall(decl *strings.Builder) string {
 					vs = append(vs, r.tr("&"+resName(p, j)))
 				}
 			}
-			opts = append(opts, c+".Results("+strings.Join(vs, ", ")+")")
+			switch p.F.SplitOpts {
+			case "results", "both":
+				for _, v := range vs {
+					opts = append(opts, c+".Results("+v+")")
+				}
+			case "results-spread":
+				opts = append(opts, c+".Results("+vs[0]+")")
+				for _, v := range vs[1:] {
+					lateOpts = append(lateOpts, c+".Results("+v+")")
+				}
+			default:
+				opts = append(opts, c+".Results("+strings.Join(vs, ", ")+")")
+			}
 		case tok == "C":
 			switch f.Conc {
 			case "expr":
@@ -377,6 +395,7 @@ func (r *renderer) flowCall(decl *strings.Builder) string {
 			opts = append(opts, c+".Task(\n\t\t\t"+strings.Join(args, ",\n\t\t\t")+",\n\t\t)")
 		}
 	}
+	opts = append(opts, lateOpts...)
 	for i := range opts {
 		opts[i] = r.paren(opts[i])
 	}
